@@ -494,7 +494,8 @@ func (c *provCtx) walk(v ssa.Value, d int) {
 			case *ssa.IndexAddr:
 				c.emit("other", "elem-of:"+Path(a.X), v)
 			default:
-				c.emit("other", "load:"+Path(x.X), v)
+				// dereference of a pointer value: where the pointer comes from
+				c.walk(x.X, d+1)
 			}
 			return
 		}
@@ -535,6 +536,9 @@ func (c *provCtx) walk(v ssa.Value, d int) {
 					n++
 				}
 			}
+		}
+		if n == 0 && isWrapper(fn) {
+			return // a synthetic wrapper nobody calls
 		}
 		if n == 0 || fn.Object() != nil && fn.Object().Exported() {
 			c.emit("param", FnName(fn)+"."+x.Name(), v)
